@@ -5,6 +5,7 @@ import (
 	"encoding/json"
 	"flag"
 	"fmt"
+	"hash/fnv"
 	"io"
 	"os"
 	"runtime"
@@ -105,7 +106,11 @@ var siteNames = map[string]string{"v3B": "v3.base.decodeOne", "v3T": "v3.tempora
 // outcome of one decode + queries, as one comparable string
 func outcome(h *handle, err error) string {
 	if err != nil {
-		return "error " + strings.Join(sentinelsOf(err), ",")
+		// the error's full rendering (message, causes and context) belongs to the result: it must be the one the same call
+		// gives sequentially
+		hs := fnv.New64a()
+		fmt.Fprintf(hs, "%s|%+v", err.Error(), err)
+		return fmt.Sprintf("error %s text=%016x", strings.Join(sentinelsOf(err), ","), hs.Sum64())
 	}
 	sn := h.snapshot()
 	var sb strings.Builder
@@ -172,6 +177,21 @@ var concJobs = []job{
 	{"v2", 'T', "AV:L/AC:H/Au:M/C:N/I:N/A:P/E:POC/RL:OF/RC:UC"},
 	{"v2", 'T', "AV:L/AC:H/AC:H/Au:M/C:N/I:N/A:P"},
 	{"v2", 'B', "AV:N/AC:L/Au:N/C:P/I:P/A:C"},
+	// every error path of every decoder kind runs concurrently too: well-formed but incomplete vectors (the error comes from
+	// the closing completeness check), unsupported metrics (the deferred error), other versions, v2 group and order defects
+	{"v3", 'B', "CVSS:3.1/AV:N/AC:L/PR:N/UI:N/S:U/C:H/I:H"},
+	{"v3", 'B', "CVSS:3.0/AC:H/PR:L/UI:R/S:C/C:L/I:N/A:L"},
+	{"v3", 'B', "CVSS:3.1/AV:N/AC:L/PR:N/UI:N/S:U/C:H/I:H/A:H/E:F"},
+	{"v3", 'T', "CVSS:3.1/AV:N/AC:L/PR:N/UI:N/S:U/C:H/A:H/E:F"},
+	{"v3", 'T', "CVSS:3.0/AV:N/AC:L/PR:N/UI:N/S:U/C:H/I:H/A:H/MAV:N"},
+	{"v3", 'E', "CVSS:3.1/AC:L/PR:N/UI:N/S:U/C:H/I:H/A:H/CR:H"},
+	{"v3", 'E', "CVSS:4.0/AV:N/AC:L/PR:N/UI:N/S:U/C:H/I:H/A:H"},
+	{"v3", 'E', "CVSS:3.1/AV:N/AC:L/PR:N/UI:N/S:U/C:H/I:H/A:H/XX:Y"},
+	{"v2", 'B', "AV:N/AC:L/Au:N/C:P/I:P"},
+	{"v2", 'T', "AV:N/AC:L/Au:N/C:P/I:P/A:C/E:H"},
+	{"v2", 'E', "AV:N/AC:L/Au:N/C:P/I:P/A:C/CDP:H/TD:H"},
+	{"v2", 'E', "AV:N/AC:L/Au:N/C:P/I:P/A:C/CDP:H/TD:H/CR:M/IR:M/AR:H/E:F/RL:OF/RC:C"},
+	{"v2", 'T', "AC:L/AV:N/Au:N/C:P/I:P/A:C"},
 }
 
 // conc-replay: every schedule x seeded pairs of jobs, gated through the decodeOne hook
